@@ -402,6 +402,72 @@ func (w *World) nonNilField(key string) bool {
 				}
 			}
 		}
+		// package-level variables that are initialised where they are declared with make(...), a composite literal or
+		// &T{...} and are never assigned anywhere in their package are never nil (package initialisation happens
+		// before any function under contract runs)
+		for _, pkg := range w.Pkgs {
+			if pkg.TypesInfo == nil {
+				continue
+			}
+			cand := map[types.Object]bool{}
+			for _, f := range pkg.Syntax {
+				for _, d := range f.Decls {
+					gd, ok := d.(*ast.GenDecl)
+					if !ok || gd.Tok != token.VAR {
+						continue
+					}
+					for _, sp := range gd.Specs {
+						vs := sp.(*ast.ValueSpec)
+						if len(vs.Values) != len(vs.Names) {
+							continue
+						}
+						for i, n := range vs.Names {
+							switch v := unparen(vs.Values[i]).(type) {
+							case *ast.CompositeLit:
+								cand[pkg.TypesInfo.Defs[n]] = true
+							case *ast.UnaryExpr:
+								if _, isLit := unparen(v.X).(*ast.CompositeLit); isLit && v.Op == token.AND {
+									cand[pkg.TypesInfo.Defs[n]] = true
+								}
+							case *ast.CallExpr:
+								if id, ok := unparen(v.Fun).(*ast.Ident); ok && id.Name == "make" {
+									if _, isB := pkg.TypesInfo.Uses[id].(*types.Builtin); isB {
+										cand[pkg.TypesInfo.Defs[n]] = true
+									}
+								}
+							}
+						}
+					}
+				}
+			}
+			if len(cand) == 0 {
+				continue
+			}
+			for _, f := range pkg.Syntax {
+				ast.Inspect(f, func(n ast.Node) bool {
+					switch x := n.(type) {
+					case *ast.AssignStmt:
+						for _, l := range x.Lhs {
+							if id, ok := unparen(l).(*ast.Ident); ok {
+								delete(cand, pkg.TypesInfo.Uses[id])
+							}
+						}
+					case *ast.UnaryExpr:
+						if x.Op == token.AND {
+							if id, ok := unparen(x.X).(*ast.Ident); ok {
+								delete(cand, pkg.TypesInfo.Uses[id]) // address taken: may be written through the pointer
+							}
+						}
+					}
+					return true
+				})
+			}
+			for obj := range cand {
+				if obj != nil {
+					w.nonnil["GV:"+pkg.Name+"."+obj.Name()] = true
+				}
+			}
+		}
 	}
 	return w.nonnil[key]
 }
